@@ -71,9 +71,14 @@ class Single(Part):
     floors = {"failure": 0.3}
 
     def strategy(self, tier):
-        return tstrat.templates(depth=2 if tier == "quick" else 3,
-                                max_elems=8, fail_p=4, len_ok=False,
-                                fail_classes=True)
+        # (the template is written with one of three line-ending styles;
+        # lines and columns are the same in all of them)
+        return st.tuples(
+            tstrat.templates(depth=2 if tier == "quick" else 3,
+                             max_elems=8, fail_p=4, len_ok=False,
+                             fail_classes=True),
+            st.sampled_from(["\n", "\n", "\r\n", "\r"])).map(
+                lambda t: dict(t[0], eol=t[1]))
 
     def source(self, case):
         return tmodel.serialize(case["nodes"])
@@ -133,7 +138,7 @@ class Single(Part):
         site = self._site(case, out, exc._verif_tag)
         detail = {"source": src, "bindings": case["bindings"],
                   "class": cls_name, "tag": exc._verif_tag}
-        o = run(PageTemplate, src)
+        o = run(PageTemplate, src.replace("\n", case.get("eol", "\n")))
         if not o.ok:
             return Mismatch("single:compile raises " + o.exc_name,
                             dict(detail, outcome=o.brief()))
@@ -292,9 +297,11 @@ class Chain(Part):
             "leads": st.lists(st.sampled_from(LEADS), min_size=4,
                               max_size=4),
             "xml": st.booleans(),
+            "eol": st.sampled_from(["\n", "\n", "\r\n", "\r"]),
             # an earlier failure inside another template's macro that an
             # on-error element has handled: it must leave no trace
-            "handled_before": st.booleans(),
+            "handled_before": st.sampled_from([False, False, True,
+                                               "filler"]),
             # the macro expression of a call site has a part of its own
             # that is evaluated (load: ${...}.pt)
             "call_form": st.sampled_from(["plain", "plain", "interp",
@@ -303,7 +310,18 @@ class Chain(Part):
 
     def files(self, case):
         files = self._files(case)
-        if case.get("handled_before"):
+        if case.get("handled_before") == "filler":
+            # ... the handled failure comes from a slot filler and the
+            # handler stands in the macro, around the slot
+            pre = ('<r><p metal:use-macro="load: guard.pt"><b metal:fill-slot'
+                   '="s">${boom(\'ValueError\', \'H\')}</b></p>')
+            f0 = files[0]
+            f0[1] = pre + f0[1] + "</r>"
+            f0[2] = [(e, o + len(pre)) for e, o in f0[2]]
+            files.append(["guard.pt", '<p>g<div tal:on-error="string:H">'
+                          '<span metal:define-slot="s">d</span></div></p>',
+                          []])
+        elif case.get("handled_before"):
             pre = ('<r><div tal:on-error="string:H"><p metal:use-macro="'
                    'load: bad.pt">u</p></div>')
             f0 = files[0]
@@ -415,9 +433,17 @@ class Chain(Part):
         self.n = getattr(self, "n", 0) + 1
         d = os.path.join(tmp, "c%d" % self.n)
         os.makedirs(d, exist_ok=True)
+        eol = case.get("eol", "\n")
+        if case["site"] == "codeblock":
+            eol = "\n"      # (the expression text itself spans lines)
+        if case["xml"] and eol == "\r":
+            # (XML mode keeps line endings as written and counts lines by
+            # line feeds: a lone CR is not generated there)
+            eol = "\r\n"
         for name, src, _ in files:
-            with open(os.path.join(d, name), "w", encoding="utf-8") as f:
-                f.write(src)
+            with open(os.path.join(d, name), "w", encoding="utf-8",
+                      newline="") as f:
+                f.write(src.replace("\n", eol))
         detail = {"files": [(f[0], f[1]) for f in files],
                   "class": case["cls"]}
         log = []
